@@ -348,6 +348,12 @@ func init() {
 					}
 				}
 				snap := verifhooks.SnapshotCodecCaches()
+				if c.OverMemory() {
+					// every history compiles code that is never unloaded
+					r.Notes = append(r.Notes, "memory budget of the worker reached: enumeration ended early")
+					r.Exhaustive = false
+					return
+				}
 				for _, last := range obsOps {
 					if c.Expired() {
 						r.Exhaustive = false
